@@ -7,7 +7,8 @@ Section Proofs.
   Variable S : Type.
   Notation st := (st S).
 
-  Definition nterm (l : list line) : nat := length (filter (fun x => match x with LStatus => false | _ => true end) l).
+  Definition is_term (x : line) : bool := match x with LOk | LErr => true | _ => false end.
+  Definition nterm (l : list line) : nat := length (filter is_term l).
   Lemma nterm_app a b : nterm (a ++ b) = (nterm a + nterm b)%nat.
   Proof. unfold nterm. rewrite filter_app, app_length. reflexivity. Qed.
 
@@ -45,7 +46,7 @@ Section Proofs.
     - destruct dp as [|x rest]; [discriminate|]. injection H as <-. constructor; cbn; auto.
     - injection H as <-. constructor; cbn; auto.
     - injection H as <-. constructor; cbn; auto.
-    - destruct fd as [|[| |] rest]; [discriminate| | |]; injection H as <-; constructor; cbn; auto.
+    - destruct fd as [|[| | |] rest]; [discriminate| | | |]; injection H as <-; constructor; cbn; auto.
   Qed.
 
   (* in every reachable state, whatever the device does: what the device has received, followed by what is still queued,
@@ -96,9 +97,33 @@ Section Proofs.
               end
   }.
 
-  Definition no_alarm (l : label) : Prop := l <> DevAlarm.
+  (* the one schedule constraint of the synchrony theorems: an UNSOLICITED error line is handled by the reader while no
+     write() is waiting (between statements); handled during a wait it releases that write early, by design of the code *)
+  Definition guard (l : label) (s : st) : bool :=
+    match l, from_dev S s, ph S s with
+    | Read, LAlarm :: _, Waiting => false
+    | _, _, _ => true
+    end.
+  Fixpoint grun (ls : list label) (s : st) : option st :=
+    match ls with
+    | [] => Some s
+    | l :: ls' => if guard l s then (match step S l s with Some s' => grun ls' s' | None => None end) else None
+    end.
 
-  Lemma sinv_step l s s' : no_alarm l -> SInv s -> step S l s = Some s' -> SInv s'.
+  Lemma grun_inv (P : st -> Prop) : (forall l s s', guard l s = true -> P s -> step S l s = Some s' -> P s') ->
+    forall ls s0 s, P s0 -> grun ls s0 = Some s -> P s.
+  Proof.
+    intros Hstep. induction ls as [|l ls IH]; intros s0 s H0 H; cbn in H; [injection H as <-; exact H0|].
+    destruct (guard l s0) eqn:G; [|discriminate]. destruct (step S l s0) as [s1|] eqn:E; [|discriminate].
+    apply (IH s1 s); [eapply Hstep; eauto|exact H].
+  Qed.
+  Lemma grun_run : forall ls s0 s, grun ls s0 = Some s -> run S ls s0 = Some s.
+  Proof.
+    induction ls as [|l ls IH]; intros s0 s H; cbn in *; [exact H|].
+    destruct (guard l s0); [|discriminate]. destruct (step S l s0) as [s1|]; [apply IH; exact H|discriminate].
+  Qed.
+
+  Lemma sinv_step l s s' : guard l s = true -> SInv s -> step S l s = Some s' -> SInv s'.
   Proof.
     intros Hl [Hc Hr Hp] H. destruct s as [td p a sd q dp fd rc oc tm cl sp te]. cbn in *.
     destruct l; cbn in H.
@@ -107,14 +132,16 @@ Section Proofs.
     - destruct p; [discriminate|]. destruct a; [|discriminate]. destruct td as [|x rest]; [discriminate|]. injection H as <-.
       destruct Hp as (A & B & C). specialize (C eq_refl). constructor; cbn; rewrite ?app_length; cbn; try lia.
     - destruct q as [|x rest]; [discriminate|]. injection H as <-. constructor; cbn in *; rewrite ?app_length; cbn; try lia. exact Hp.
-    - destruct dp as [|x rest]; [discriminate|]. injection H as <-. constructor; cbn in *; rewrite ?nterm_app; try exact Hp; try lia.
-      destruct err; unfold nterm in *; rewrite ?filter_app, ?app_length; cbn in *; lia.
-    - injection H as <-. constructor; cbn in *; rewrite ?nterm_app; try exact Hp; unfold nterm in *; rewrite ?filter_app, ?app_length; cbn in *; lia.
-    - exfalso. apply Hl. reflexivity.
-    - destruct fd as [|[| |] rest]; [discriminate| | |]; injection H as <-; constructor; cbn in *; try lia; unfold nterm in *; cbn in *.
+    - destruct dp as [|x rest]; [discriminate|]. injection H as <-. constructor; cbn -[nterm] in *; rewrite ?nterm_app; try exact Hp; try lia.
+      destruct err; unfold nterm in *; cbn in *; lia.
+    - injection H as <-. constructor; cbn -[nterm] in *; rewrite ?nterm_app; try exact Hp; unfold nterm in *; cbn in *; lia.
+    - injection H as <-. constructor; cbn -[nterm] in *; rewrite ?nterm_app; try exact Hp; unfold nterm in *; cbn in *; lia.
+    - destruct fd as [|[| | |] rest]; [discriminate| | | |]; injection H as <-; constructor; cbn in *; try lia; unfold nterm in *; cbn in *; try lia.
       + destruct p; [lia|]. destruct Hp as (A & B & C). repeat split; try lia.
       + destruct p; [lia|]. destruct Hp as (A & B & C). repeat split; try lia.
       + exact Hp.
+      + (* an unsolicited error line: only handled while idle *)
+        destruct p; [exact Hp|discriminate].
   Qed.
 
   Lemma sinv_init stmts : SInv (init S stmts 0).
@@ -124,15 +151,12 @@ Section Proofs.
      any unsolicited status lines, error replies at any position): every write() that has returned or raised had the
      terminator of its own statement handled first; and whenever no write() is in progress, everything written has
      been sent and acknowledged -- which is what disconnect(wait=True) waits for *)
-  Theorem sync stmts ls s : Forall no_alarm ls -> run S ls (init S stmts 0) = Some s ->
+  Theorem sync stmts ls s : grun ls (init S stmts 0) = Some s ->
     (length (outcomes S s) <= termd S s)%nat /\
     (ph S s = Idle -> termd S s = length (outcomes S s) /\ queue S s = [] /\ dev_pending S s = [] /\ nterm (from_dev S s) = 0%nat /\
                       length (received S s) = length (outcomes S s)).
   Proof.
-    intros Hls H. assert (SInv s) as [Hc Hr Hp].
-    { revert H. generalize (sinv_init stmts). generalize (init S stmts 0).
-      induction Hls as [|l ls Hl _ IH]; intros s0 Hi H; cbn in H; [injection H as <-; exact Hi|].
-      destruct (step S l s0) as [s1|] eqn:E; [|discriminate]. apply (IH s1); [eapply sinv_step; eauto|exact H]. }
+    intros H. assert (SInv s) as [Hc Hr Hp] by (exact (grun_inv SInv sinv_step ls _ s (sinv_init stmts) H)).
     destruct (ph S s) eqn:P.
     - destruct Hp as [A B]. split; [lia|]. intros _. split; [exact B|].
       assert (length (queue S s) = 0 /\ length (dev_pending S s) = 0 /\ nterm (from_dev S s) = 0)%nat as (Q & D & F) by lia.
@@ -141,13 +165,10 @@ Section Proofs.
   Qed.
 
   (* the step at which write() returns: the acknowledgement it consumes is the one of its own statement *)
-  Theorem return_after_own_ack stmts ls s s' : Forall no_alarm ls -> run S ls (init S stmts 0) = Some s ->
+  Theorem return_after_own_ack stmts ls s s' : grun ls (init S stmts 0) = Some s ->
     step S Return s = Some s' -> termd S s = Datatypes.S (length (outcomes S s)) /\ length (received S s) = Datatypes.S (length (outcomes S s)).
   Proof.
-    intros Hls H Hs. assert (SInv s) as [Hc Hr Hp].
-    { revert H. generalize (sinv_init stmts). generalize (init S stmts 0).
-      induction Hls as [|l ls Hl _ IH]; intros s0 Hi H; cbn in H; [injection H as <-; exact Hi|].
-      destruct (step S l s0) as [s1|] eqn:E; [|discriminate]. apply (IH s1); [eapply sinv_step; eauto|exact H]. }
+    intros H Hs. assert (SInv s) as [Hc Hr Hp] by (exact (grun_inv SInv sinv_step ls _ s (sinv_init stmts) H)).
     cbn in Hs. destruct (ph S s); [discriminate|]. destruct (ack S s) eqn:A; [|discriminate]. destruct Hp as (P1 & P2 & P3).
     specialize (P3 eq_refl). split; [exact P3|]. lia.
   Qed.
@@ -168,7 +189,7 @@ Section Proofs.
     constructor; cbn; auto. unfold nterm. induction k as [|k IH]; [reflexivity|]. cbn. cbn in IH. lia.
   Qed.
 
-  Lemma ginv_step k l s s' : no_alarm l -> GInv k s -> step S l s = Some s' -> GInv k s'.
+  Lemma ginv_step k l s s' : guard l s = true -> GInv k s -> step S l s = Some s' -> GInv k s'.
   Proof.
     intros Hl [Hc Hr Hp] H. destruct s as [td p a sd q dp fd rc oc tm cl sp te]. cbn in *.
     destruct l; cbn in H.
@@ -180,25 +201,23 @@ Section Proofs.
     - destruct dp as [|x rest]; [discriminate|]. injection H as <-. constructor; cbn -[nterm] in *; rewrite ?nterm_app; try exact Hp; try lia.
       destruct err; unfold nterm in *; cbn in *; lia.
     - injection H as <-. constructor; cbn -[nterm] in *; rewrite ?nterm_app; try exact Hp; unfold nterm in *; cbn in *; lia.
-    - exfalso. apply Hl. reflexivity.
-    - destruct fd as [|[| |] rest]; [discriminate| | |]; injection H as <-; constructor; cbn in *; try lia; unfold nterm in *; cbn in *; try lia.
+    - injection H as <-. constructor; cbn -[nterm] in *; rewrite ?nterm_app; try exact Hp; unfold nterm in *; cbn in *; lia.
+    - destruct fd as [|[| | |] rest]; [discriminate| | | |]; injection H as <-; constructor; cbn in *; try lia; unfold nterm in *; cbn in *; try lia.
       + destruct p; [lia|]. destruct Hp as (A & B & C0). repeat split; try lia.
       + destruct p; [lia|]. destruct Hp as (A & B & C0). repeat split; try lia.
       + exact Hp.
+      + destruct p; [exact Hp|discriminate].
   Qed.
 
   (* with k acknowledgements still on their way when the first write() starts (k = 1: the trailing M110 of the start-up
      print), completed writes still never outnumber handled acknowledgements -- but k of those belong to nobody, so write
      number i may return as soon as the acknowledgement of statement i - k has been handled: at most k statements early,
      never more *)
-  Theorem sync_stale stmts k ls s : Forall no_alarm ls -> run S ls (init S stmts k) = Some s ->
+  Theorem sync_stale stmts k ls s : grun ls (init S stmts k) = Some s ->
     (length (outcomes S s) <= termd S s)%nat /\
     (length (received S s) + k = length (dev_pending S s) + nterm (from_dev S s) + termd S s)%nat.
   Proof.
-    intros Hls H. assert (GInv k s) as [Hc Hr Hp].
-    { revert H. generalize (ginv_init stmts k). generalize (init S stmts k).
-      induction Hls as [|l ls Hl _ IH]; intros s0 Hi H; cbn in H; [injection H as <-; exact Hi|].
-      destruct (step S l s0) as [s1|] eqn:E; [|discriminate]. apply (IH s1); [eapply ginv_step; eauto|exact H]. }
+    intros H. assert (GInv k s) as [Hc Hr Hp] by (exact (grun_inv (GInv k) (ginv_step k) ls _ s (ginv_init stmts k) H)).
     split; [|exact Hr]. destruct (ph S s); [destruct Hp; lia|destruct Hp as (A & B & C0); lia].
   Qed.
 
@@ -212,19 +231,19 @@ Section Proofs.
     - destruct dp; [discriminate|]. injection H as <-. reflexivity.
     - injection H as <-. reflexivity.
     - injection H as <-. reflexivity.
-    - destruct fd as [|[| |] rest]; [discriminate| | |]; injection H as <-; reflexivity.
+    - destruct fd as [|[| | |] rest]; [discriminate| | | |]; injection H as <-; reflexivity.
   Qed.
 
   (* a line starting with error / alarm / !! handled by the reader (a reply or unsolicited, whatever else happens in
      between) makes the next write() that completes raise: it is never dropped and never attributed to nobody *)
   Theorem error_surfaces s1 s2 rest ls s3 s4 :
-    from_dev S s1 = LErr :: rest -> step S Read s1 = Some s2 ->
+    (from_dev S s1 = LErr :: rest \/ from_dev S s1 = LAlarm :: rest) -> step S Read s1 = Some s2 ->
     run S ls s2 = Some s3 -> ~ In Return ls -> step S Return s3 = Some s4 ->
     exists pre, outcomes S s4 = pre ++ [Raised].
   Proof.
     intros Hf Hr Hrun Hnr Hret.
     assert (Hs2 : stored S s2 = true).
-    { destruct s1 as [td p a sd q dp fd rc oc tm cl sp te]. cbn in *. subst fd. injection Hr as <-. reflexivity. }
+    { destruct s1 as [td p a sd q dp fd rc oc tm cl sp te]. cbn in *. destruct Hf as [->| ->]; injection Hr as <-; reflexivity. }
     assert (Hs3 : stored S s3 = true).
     { clear Hret Hr Hf. revert s2 Hs2 Hrun. induction ls as [|l ls IH]; intros s2 Hs2 Hrun; cbn in Hrun; [injection Hrun as <-; exact Hs2|].
       destruct (step S l s2) as [sx|] eqn:E; [|discriminate].
@@ -245,7 +264,7 @@ Section Proofs.
   Fixpoint wf (t : nat) (ls : list line) (ss : list nat) : Prop :=
     match ls, ss with
     | [], [] => True
-    | l :: ls', k0 :: ss' => k0 = t /\ wf (match l with LStatus => t | _ => Datatypes.S t end) ls' ss'
+    | l :: ls', k0 :: ss' => k0 = t /\ wf (if is_term l then Datatypes.S t else t) ls' ss'
     | _, _ => False
     end.
 
@@ -254,7 +273,7 @@ Section Proofs.
     induction ls as [|x ls IH]; intros [|k0 ss] t l H; cbn in H; try contradiction.
     - cbn. split; [unfold nterm; cbn; lia|exact I].
     - destruct H as [-> H]. cbn [app wf]. split; [reflexivity|].
-      replace (t + nterm (x :: ls))%nat with ((match x with LStatus => t | _ => Datatypes.S t end) + nterm ls)%nat
+      replace (t + nterm (x :: ls))%nat with ((if is_term x then Datatypes.S t else t) + nterm ls)%nat
         by (unfold nterm; destruct x; cbn; lia).
       apply IH. exact H.
   Qed.
@@ -262,7 +281,7 @@ Section Proofs.
   Lemma wf_ge : forall ls ss t, wf t ls ss -> Forall (fun k0 => (t <= k0)%nat) ss.
   Proof.
     induction ls as [|x ls IH]; intros [|k0 ss] t H; cbn in H; try contradiction; [constructor|].
-    destruct H as [-> H]. constructor; [lia|]. eapply Forall_impl; [|apply (IH _ _ H)]. cbn. intros a Ha. destruct x; lia.
+    destruct H as [-> H]. constructor; [lia|]. eapply Forall_impl; [|apply (IH _ _ H)]. cbn. intros a Ha. destruct x; cbn in Ha; lia.
   Qed.
 
   Lemma wf_init k : forall t, wf t (repeat LOk k) (seq t k).
@@ -294,24 +313,30 @@ Section Proofs.
     - injection H as <-. constructor; cbn -[nterm].
       + rewrite He. apply wf_app. exact Hw.
       + rewrite nterm_app, He. unfold nterm; cbn; lia.
-    - destruct fd as [|[| |] rest]; [discriminate| | |]; injection H as <-; destruct sp as [|k0 sp]; cbn in Hw; try contradiction;
+    - destruct fd as [|[| | |] rest]; [discriminate| | | |]; injection H as <-; destruct sp as [|k0 sp]; cbn in Hw; try contradiction;
         destruct Hw as [_ Hw]; constructor; cbn; try exact Hw; unfold nterm in *; cbn in *; lia.
   Qed.
 
   (* READINGS: from a quiescent start, without unsolicited error lines: when write() number i returns, every line still on
      its way to the reader was emitted by the device AFTER the terminator of statement i -- so every line the device
      sent before acknowledging (a reading requested by the statement, or the ok line itself) has been handled *)
-  Theorem readings_available stmts ls s s' : Forall no_alarm ls -> run S ls (init S stmts 0) = Some s ->
+  Theorem readings_available stmts ls s s' : grun ls (init S stmts 0) = Some s ->
     step S Return s = Some s' -> Forall (fun k0 => (Datatypes.S (length (outcomes S s)) <= k0)%nat) (stamps S s).
   Proof.
-    intros Hls H Hs. destruct (return_after_own_ack stmts ls s s' Hls H Hs) as [Ht _].
+    intros H Hs. destruct (return_after_own_ack stmts ls s s' H Hs) as [Ht _]. apply grun_run in H.
     assert (RInv s) as [Hw _].
-    { clear Hs Ht Hls. revert H. generalize (rinv_init stmts 0). generalize (init S stmts 0).
+    { clear Hs Ht. revert H. generalize (rinv_init stmts 0). generalize (init S stmts 0).
       induction ls as [|l ls IH]; intros s0 Hi H; cbn in H; [injection H as <-; exact Hi|].
       destruct (step S l s0) as [s1|] eqn:E; [|discriminate]. apply (IH s1); [eapply rinv_step; eauto|exact H]. }
     rewrite <- Ht. eapply wf_ge. exact Hw.
   Qed.
 End Proofs.
+
+(* an unsolicited error line handled DURING a wait releases that write() before its own statement is acknowledged (the
+   schedule the guard of the synchrony theorems excludes): the device has not answered yet, write() has already raised *)
+Theorem refuted_alarm_during_wait : exists s, run nat [CallWrite; Send; DevAlarm; Read; Return] (init nat [7%nat] 0) = Some s /\
+  outcomes nat s = [Raised] /\ termd nat s = 0%nat /\ dev_pending nat s = [7%nat].
+Proof. eexists. vm_compute. repeat split. Qed.
 
 (* ---------------- without quiescence synchrony is FALSE (known finding: the ok of the trailing M110) ---------------- *)
 Theorem refuted_stale_ok : exists s, run nat [CallWrite; Read; Return] (init nat [7%nat] 1) = Some s /\
